@@ -9,9 +9,14 @@
      tname / wf_name / render / denote   the well-formed type names of the property, how they are
                             written (upper case, canonical decimals) and the description they denote;
      wfb d                  d is a well-formed description;
-     column_model           FlatColumn(type=s), DataFrame.description, from_name(type code). *)
+     column_model           FlatColumn(type=s), DataFrame.description, from_name(type code);
+     schema / description   a whole frame: (column name, carried description) in schema order, and the
+                            list DataFrame.description returns for it (lookup of each column BY NAME);
+     col_in / declared / schema_of / frame_desc   the columns of a frame as declared (name, type-name
+                            string), what each constructor yields, the schema of those that did not
+                            raise, and every description entry paired with from_name(its type code). *)
 From Coq Require Import List NArith ZArith Bool String.
-From Orso Require Import Base.C06_Defs Gen.C06_Types Gen.C06_Names Gen.C06_Env Gen.C06_Regex Model.C06 Proofs.C06.
+From Orso Require Import Base.C06_Defs Gen.C06_Types Gen.C06_Names Gen.C06_Env Gen.C06_Regex Model.C06 Proofs.C06 Proofs.C06_Frame.
 Import ListNotations.
 Open Scope N_scope.
 
@@ -139,6 +144,65 @@ Theorem C06_declared_column :
 Proof. exact declared_column. Qed.
 Print Assumptions C06_declared_column.
 
+(* ---------------- whole frames (round 2) ---------------- *)
+
+(* DataFrame.description of a frame whose column names are distinct is, entry by entry, a function
+   of that entry's own column: no entry depends on any other column of the frame, on their order
+   or on how many there are. *)
+Theorem C06_description_per_column :
+  forall sch : schema,
+  NoDup (map fst sch) -> description sch = map (fun nc => entry_of (fst nc) (snd nc)) sch.
+Proof. exact description_per_column. Qed.
+Print Assumptions C06_description_per_column.
+
+(* Without the distinctness premise: entry k still carries the name of column k, but renders the
+   FIRST column of that name (RelationSchema.find_column); there are as many entries as columns. *)
+Theorem C06_description_first_match :
+  forall (sch : schema) (k : nat) (n : str) (c : descr),
+  nth_error sch k = Some (n, c) ->
+  List.length (description sch) = List.length sch /\
+  exists c', find_column n sch = Some c' /\ nth_error (description sch) k = Some (entry_of n c').
+Proof. exact description_first_match_len. Qed.
+Print Assumptions C06_description_first_match.
+
+(* In a frame with distinct column names, whatever the other columns are: the entry at the
+   position of a column carrying a well-formed, proper description reports that column's own type
+   code, and the code resolves back to the column's type, reported precision/scale, element type. *)
+Theorem C06_frame_type_code_round_trip :
+  forall (sch : schema) (k : nat) (n : str) (d : descr),
+  NoDup (map fst sch) -> nth_error sch k = Some (n, column_of d) ->
+  wfb d = true -> proper d = true ->
+  exists d',
+    nth_error (description sch) k =
+      Some (n, type_code (column_of d), desc_prec (column_of d), desc_scale (column_of d)) /\
+    from_name (type_code (column_of d)) = Ok d' /\
+    d_ty d' = d_ty (column_of d) /\
+    d_prec d' = desc_prec (column_of d) /\ d_scale d' = desc_scale (column_of d) /\
+    (forall e, d_elt (column_of d) = Some e -> d_elt d' = Some e).
+Proof. exact frame_type_code_round_trip. Qed.
+Print Assumptions C06_frame_type_code_round_trip.
+
+(* End to end on [declared] / [frame_desc] (what the frame correspondence evaluates): in a frame
+   of any columns with distinct names - other columns may be of the same base type with other
+   parameters, or may have been rejected - a column declared with a well-formed name (any letter
+   case) is constructed, carries what the name denotes, has exactly one description entry under
+   its name, and that entry's type code resolves back to its type / precision / scale / element. *)
+Theorem C06_declared_frame :
+  forall (cols : list col_in) (ci : col_in) (t : tname),
+  NoDup (map ci_name cols) -> In ci cols ->
+  wf_name t = true -> ci_upper ci = render t -> proper (denote t) = true ->
+  exists c d',
+    declared ci = Ok c /\
+    In (entry_of (ci_name ci) c, Ok d') (frame_desc cols) /\
+    (forall o, In o (frame_desc cols) -> e_name (fst o) = ci_name ci -> o = (entry_of (ci_name ci) c, Ok d')) /\
+    d_ty c = d_ty (denote t) /\ d_len c = d_len (denote t) /\ d_elt c = d_elt (denote t) /\
+    (forall p, d_prec (denote t) = Some p -> d_prec c = Some p) /\
+    (forall sc, d_scale (denote t) = Some sc -> d_scale c = Some sc) /\
+    d_ty d' = d_ty c /\ d_prec d' = desc_prec c /\ d_scale d' = desc_scale c /\
+    (forall e, d_elt c = Some e -> d_elt d' = Some e).
+Proof. exact declared_frame. Qed.
+Print Assumptions C06_declared_frame.
+
 (* ---------------- non-vacuity and worked instances ---------------- *)
 
 (* the hypotheses are satisfiable by non-trivial values, and letter-case variants exist *)
@@ -195,3 +259,28 @@ Example C06_placeholder_type_code :
   from_name (type_code (column_of (plain (TMember ty_missing) None))) = Ok (plain TZero None) /\
   from_name (type_code (column_of (plain (TMember ty_array) (Some ty_missing)))) = Raise ValueError.
 Proof. repeat split; vm_compute; reflexivity. Qed.
+
+(* frames: two DECIMAL and two ARRAY columns with different parameters in one frame (plus a
+   rejected one, which is left out of the schema); every entry renders its own column.  And why
+   the distinct-names premise is there: under a repeated name the first column is rendered twice. *)
+Local Open Scope string_scope.
+Example C06_nonvacuous_frames :
+  let col n s := ((txt n, txt s, [], []) : col_in) in
+  let cols := [col "a" "DECIMAL(10,2)"; col "b" "decimal(5,1)"; col "x" "ARRAY<ARRAY>";
+               col "c" "ARRAY<INTEGER>"; col "d" "array<varchar>"] in
+  NoDup (map ci_name cols) /\
+  ci_upper (col "b" "decimal(5,1)") = render (NDecimal 5 1) /\
+  map (fun o => e_code (fst o)) (frame_desc cols) =
+    [txt "DECIMAL(10,2)"; txt "DECIMAL(5,1)"; txt "ARRAY<INTEGER>"; txt "ARRAY<VARCHAR>"] /\
+  map snd (frame_desc cols) =
+    [Ok (mkD (TMember (txt "DECIMAL")) None (Some 10) (Some 2) None);
+     Ok (mkD (TMember (txt "DECIMAL")) None (Some 5) (Some 1) None);
+     Ok (mkD (TMember (txt "ARRAY")) None None None (Some (txt "INTEGER")));
+     Ok (mkD (TMember (txt "ARRAY")) None None None (Some (txt "VARCHAR")))] /\
+  map (fun o => e_code (fst o)) (frame_desc [col "a" "DECIMAL(10,2)"; col "a" "DECIMAL(5,1)"]) =
+    [txt "DECIMAL(10,2)"; txt "DECIMAL(10,2)"].
+Proof.
+  cbv zeta. split.
+  { repeat constructor; vm_compute; intuition discriminate. }
+  repeat split; vm_compute; reflexivity.
+Qed.
